@@ -269,7 +269,7 @@ class Engine:
 
     def range_fact(self, seq):
         q = z3.Int("q!r")
-        return z3.ForAll([q], z3.Implies(z3.And(0 <= q, q < z3.Length(seq)), z3.And(0 <= seq[q], seq[q] <= 255)), patterns=[seq[q]])
+        return z3.ForAll([q], z3.Implies(z3.And(0 <= q, q < z3.Length(seq)), z3.And(0 <= seq[q], seq[q] <= 255)))
 
     def fresh_bytes(self, p, name="b", kind="bytes"):
         t = fresh(S, name)
